@@ -131,9 +131,23 @@ def orefa_part(ctx):
     report_mismatches(ctx, mm, st, "OrefaFS differs from its Coq model (Fs/OrefaFS.v, about which C05_orefa_* / C07_orefa_* are proved) on %d generated histories")
 
 
+def xcheck_part(ctx):
+    """Re-evaluate a sample of the fs histories inside Coq (vm_compute) and compare with the extracted code."""
+    import os
+    from .. import coqxcheck
+    r = coqxcheck.run(ctx, os.path.join(ctx.dir, "fs.cases"), sample=(25 if ctx.tier == "quick" else 150))
+    if r is None:
+        return
+    n, fails = r
+    ctx.coverage["extraction_cross_check"] = {"histories_re_evaluated_inside_coq": n, "differences": len(fails)}
+    if fails:
+        ctx.broken("extraction-cross-check", "the extracted OCaml model and Coq's own evaluation (vm_compute) of World.wrun differ on sampled histories", str(fails)[:2000])
+
+
 def check_C01(ctx):
     ctx.proofs()
     fs_part(ctx)
+    xcheck_part(ctx)
     fsbfs_part(ctx)
     orefa_part(ctx)
     oracle_part(ctx, "admin", "ofso", "OrefaFS deviates from Linux (key %s, %d histories) and the deviation is not a listed known finding",
